@@ -11,6 +11,7 @@ func init() {
 			writerMethodRules(c, "C06")
 			writerWriteRules(c, "C06")
 			writerGrowRules(c, "C06")
+			counterWidthRules(c, "C06")
 			// the reservation is recomputed by Reset for the new side
 			c18Writer(c)
 		},
